@@ -117,6 +117,39 @@ Theorem C07_big_refines_small : forall os s s', big_run os s = Some s' -> exists
 Proof. exact big_refines_small. Qed.
 Print Assumptions C07_big_refines_small.
 
+(* ------------------------------------------------------------------ repeat => hit ------------------------ *)
+(* FULL statement (not proved in this generality): in a run without eviction of k and with ample capacity, after
+   Store(k, v) with lifetime L at time t0, ANY Get(k) issued while more than 1 s of the lifetime remains returns
+   a hit — whatever other goroutines store or look up in between.
+   PROVED: the same for quiescent histories in which, between the store of k and the repeat, only lookups (of
+   any keys) and the passage of time occur (no other store, no eviction): from every quiescent state s with the
+   backend clock lagging less than 1 s (QU, clock_ok: true of init and preserved by stores/lookups/sleeps,
+   C07_quiescent), Store(k, v, ttl) succeeds and every later Get(k) issued while now + 1 s < t0 + ttl is a hit
+   returning v.  With C07_key_deterministic (a repeat of the query builds the same key) and the request path of
+   router.go (a hit returns before `forward`), the repeat causes no upstream exchange.  The gap (interleaved
+   stores of other keys; concurrency) is covered by the correspondence kinds cache/cachestress only. *)
+Theorem C07_repeat_hits_partial : forall s k v ttl, QU s -> clock_ok s ->
+  exists s2, big_store k v ttl false s = Some s2 /\
+    forall ops s3, Forall passive ops -> big_run ops s2 = Some s3 ->
+      (now s3 + 1000 < now s + ttl)%N ->
+      exists s4, big_get k s3 = Some s4 /\ trace s4 = EvHit k v :: trace s3.
+Proof. exact repeat_hits. Qed.
+Print Assumptions C07_repeat_hits_partial.
+
+Theorem C07_quiescent : forall ops s s', Forall simple ops -> QU s -> clock_ok s ->
+  big_run ops s = Some s' -> QU s' /\ clock_ok s'.
+Proof. exact simple_history_quiescent. Qed.
+Print Assumptions C07_quiescent.
+
+Theorem C07_repeat_hits_history : forall ops1 s1 k v ttl,
+  Forall simple ops1 -> big_run ops1 init = Some s1 ->
+  exists s2, big_store k v ttl false s1 = Some s2 /\
+    forall ops2 s3, Forall passive ops2 -> big_run ops2 s2 = Some s3 ->
+      (now s3 + 1000 < now s1 + ttl)%N ->
+      exists s4, big_get k s3 = Some s4 /\ trace s4 = EvHit k v :: trace s3.
+Proof. exact repeat_hits_history. Qed.
+Print Assumptions C07_repeat_hits_history.
+
 (* ------------------------------------------------------------------ the value ---------------------------- *)
 (* packCacheMsg then unpackCacheMsg (uncompressed wire form, then s2 as an oracle pair with the round-trip
    law) gives back a message with the same view — header (rcode, flags, id), questions, and per record owner,
@@ -154,3 +187,11 @@ Example C07_example_recycle :
   | None => False
   end.
 Proof. vm_compute. reflexivity. Qed.
+
+(* lifetime 4 s: hits at +0 s and +2.9 s (more than 1 s remains), whatever else is looked up in between *)
+Example C07_example_repeat :
+  match big_run [OStore [1] [10] 4000 false; OGet [1]; OSleep 999; OGet [2]; OSleep 999; OSleep 900; OGet [1]]%N init with
+  | Some s => returns s = [EvHit [1] [10]; EvMiss [2]; EvHit [1] [10]]%N /\ now s = 2898%N
+  | None => False
+  end.
+Proof. vm_compute. split; reflexivity. Qed.
